@@ -46,10 +46,15 @@ ShapeConfs == WithGC({
                !.pmans = {<<"A1", "">>, <<"A2", "child">>, <<"S1", "legacy">>}, !.pblobs = {"B1", "L4"},
                !.badput = TRUE, !.dels = {"A1", "S1", "M1"}, !.tdels = {"legacy"}, !.faults = FALSE] })
 
-\* the same directory reached through two spellings of its path (r.Path is the map key)
+\* the same directory reached through two spellings of its path: with NormKeys (gcKey) they share
+\* one modRefs entry; with the literal r.Path of the tree as found they do not (finding C08-1)
 AliasConfs == {
   [Base EXCEPT !.cp = Two(CC("M3", "t1", {}, FALSE, "p"), CC("M4", "t2", {}, FALSE, "p/")),
-               !.ckeys = {"p", "p/"}, !.faults = FALSE] }
+               !.ckeys = {"p", "p/"}, !.faults = FALSE],
+  [Base EXCEPT !.cp = Two(CC("M3", "t1", {}, FALSE, "p/"), CC("M4", "t2", {}, FALSE, "p")),
+               !.ckeys = {"p/"}, !.okey = "p/", !.pre = {<<"M3", "t1">>}, !.tdels = {"t1", "t2"}],
+  [Base EXCEPT !.cp = Two(CC("M1", "t1", {}, FALSE, "p/"), CC("S1", "t2", {}, FALSE, "p")),
+               !.ckeys = {"p", "p/"}, !.tdels = {"t1", "t2"}, !.faults = FALSE] }
 \* more histories for the real code only (too large for the exhaustive check): referrers of a
 \* manifest nested two levels deep, copies that share children, deletes of manifests that other
 \* manifests still list, a schema1 image that is already there
